@@ -55,6 +55,7 @@ PROPS = {
             ]},
     "C15": {"level": "exploration", "assumptions": ENGINE_ASSUMPTIONS + ["only the built-in same-cluster phase class is compared with in-process phases; the multi-cluster (annotation strategy) controller is exercised under C01/C02/C04/C05 but has no in-process equivalent to compare with"],
             "parts": [{"name": "differential", "test": "TestC15", "quick_checks": 250, "thorough_checks": 16000, "thorough_shards": 16},
+                      {"name": "recreate", "test": "TestC15Recreate", "quick_checks": 200, "thorough_checks": 12000, "thorough_shards": 16},
                       {"name": "stale-status", "test": "TestC15Stale", "quick_checks": 500, "thorough_checks": 40000, "thorough_shards": 16}]},
     "C16": engine_prop("TestC16", quick=500, thorough=30000),
     "C18": engine_prop("TestC18", quick=1200, thorough=80000),
